@@ -633,6 +633,104 @@ fn iface_plain_model() -> SModel {
     }
 }
 
+// ------------------------------- nested interfaces, four levels, no re-declaration
+
+pub mod iface_chain {
+    use async_graphql::*;
+
+    /// Registered under the innermost interface only.
+    #[derive(SimpleObject)]
+    pub struct Leaf {
+        pub id: ID,
+        pub two: i32,
+        pub three: i32,
+        pub four: i32,
+        pub own: Option<String>,
+    }
+
+    /// Registered under the second level only.
+    #[derive(SimpleObject)]
+    pub struct MidLeaf {
+        pub id: ID,
+        pub two: i32,
+    }
+
+    #[derive(Interface)]
+    #[graphql(
+        field(name = "id", ty = "&ID"),
+        field(name = "two", ty = "&i32"),
+        field(name = "three", ty = "&i32"),
+        field(name = "four", ty = "&i32")
+    )]
+    pub enum Level4 {
+        Leaf(Leaf),
+    }
+
+    #[derive(Interface)]
+    #[graphql(field(name = "id", ty = "&ID"), field(name = "two", ty = "&i32"), field(name = "three", ty = "&i32"))]
+    pub enum Level3 {
+        Level4(Level4),
+    }
+
+    /// Second of four.
+    #[derive(Interface)]
+    #[graphql(field(name = "id", ty = "&ID"), field(name = "two", ty = "&i32"))]
+    pub enum Level2 {
+        Level3(Level3),
+        MidLeaf(MidLeaf),
+    }
+
+    #[derive(Interface)]
+    #[graphql(field(name = "id", ty = "&ID"))]
+    pub enum Level1 {
+        Level2(Level2),
+    }
+
+    pub struct Query;
+
+    #[Object]
+    impl Query {
+        async fn top(&self) -> Option<Level1> {
+            None
+        }
+        async fn leaf(&self) -> Option<Leaf> {
+            None
+        }
+    }
+
+    pub fn schema() -> Schema<Query, EmptyMutation, EmptySubscription> {
+        Schema::build(Query, EmptyMutation, EmptySubscription).finish()
+    }
+}
+
+/// What the source declares: an interface that is a variant of another
+/// interface implements it, so a type implements every interface above it.
+fn iface_chain_model() -> SModel {
+    let ints = |ns: &[&str]| -> Vec<SField> {
+        let mut v = vec![fld("id", "ID!")];
+        v.extend(ns.iter().map(|n| fld(n, "Int!")));
+        v
+    };
+    SModel {
+        query: "Query".into(),
+        types: vec![
+            object("Leaf", &["Level4", "Level3", "Level2", "Level1"], {
+                let mut f = ints(&["two", "three", "four"]);
+                f.push(fld("own", "String"));
+                f
+            })
+            .desc("Registered under the innermost interface only."),
+            object("MidLeaf", &["Level2", "Level1"], ints(&["two"])).desc("Registered under the second level only."),
+            interface("Level4", &["Level3", "Level2", "Level1"], ints(&["two", "three", "four"])),
+            interface("Level3", &["Level2", "Level1"], ints(&["two", "three"])),
+            interface("Level2", &["Level1"], ints(&["two"])).desc("Second of four."),
+            interface("Level1", &[], ints(&[])),
+            object("Query", &[], vec![fld("top", "Level1"), fld("leaf", "Leaf")]),
+        ],
+        ..Default::default()
+    }
+}
+
 // ------------------------------------------------- hostile description text
 
 pub mod doc_triple {
@@ -973,6 +1071,7 @@ pub fn family() -> Vec<StaticSchema> {
         entry!("clean", &[], clean, clean_model()),
         entry!("federation", &[], fed, fed_model()),
         entry!("interface_implements", &[], iface_plain, iface_plain_model()),
+        entry!("interface_chain_four_levels", &[], iface_chain, iface_chain_model()),
         entry!("reason_quote", &["reason_quote"], reason_quote, reason_quote_model()),
         entry!("interface_directive_implements", &["interface_directive_with_implements"], iface_dir, iface_dir_model()),
         entry!("doc_triple_quote", &["desc_triple_quote"], doc_triple, doc_triple_model()),
